@@ -204,3 +204,78 @@ Proof. vm_compute. reflexivity. Qed.
 Theorem font_info_roundtrip : forall v, wt font_info_schema v = true ->
   read_s font_info_schema (write_s font_info_schema v) = Some v.
 Proof. exact (schema_roundtrip font_info_schema font_info_schema_ok). Qed.
+
+(** ** what is written for a well-typed value is a plist value the tree-level writer represents *)
+Lemma write_fields_nodup : forall fs vs, NoDup (map (fun f : field => f_key f) fs) -> NoDup (map fst (write_fields fs vs)).
+Proof.
+  induction fs as [|[[k fl_] s'] fs IH]; intros vs ND; [constructor|]. destruct vs as [|v vs]; [constructor|].
+  cbn [map] in ND. inversion ND as [|? ? Hn ND']; subst. cbn [write_fields].
+  destruct (field_written fl_ v); [|apply IH; exact ND']. cbn [map fst]. constructor; [|apply IH; exact ND'].
+  intros Hin. apply write_fields_keys in Hin. contradiction.
+Qed.
+Lemma range_int_ok : forall lo hi z, ((- 2 ^ 63 <=? lo) && (hi <? 2 ^ 64))%Z = true ->
+  ((lo <=? z) && (z <=? hi))%Z = true -> int_ok z = true.
+Proof.
+  intros lo hi z H1 H2. apply andb_true_iff in H1. destruct H1 as [A B]. apply andb_true_iff in H2. destruct H2 as [C D].
+  apply Z.leb_le in A. apply Z.ltb_lt in B. apply Z.leb_le in C. apply Z.leb_le in D.
+  unfold int_ok. apply andb_true_iff. split; [apply Z.leb_le|apply Z.ltb_lt]; lia.
+Qed.
+
+Theorem write_good : forall s, schema_rt_ok s = true -> forall v, wt s v = true -> pv_good 0 (write_s s v) = true.
+Proof.
+  intros s. induction s as [| |lo hi|nn| |vals|vals|s IH|n s IH|deny fs IH] using schema_ind2; intros OK v W;
+    destruct v; try discriminate; cbn [wt write_s schema_rt_ok] in *.
+  - reflexivity.
+  - reflexivity.
+  - cbn [pv_good]. eapply range_int_ok; eauto.
+  - apply andb_true_iff in W. destruct W as [W1 _]. exact (proj1 (num_rt x (wf_numb_spec x W1))).
+  - destruct x; try discriminate. reflexivity.
+  - cbn [pv_good]. apply existsb_exists in W. destruct W as [y [Hy Ez]]. apply Z.eqb_eq in Ez. subst y.
+    rewrite forallb_forall in OK. specialize (OK z Hy). exact OK.
+  - reflexivity.
+  - cbn [pv_good]. rewrite forallb_forall in *. intros p Hp. apply in_map_iff in Hp. destruct Hp as [x [<- Hx]]. apply IH; auto.
+  - apply andb_true_iff in W. destruct W as [_ W]. cbn [pv_good]. rewrite forallb_forall in *. intros p Hp.
+    apply in_map_iff in Hp. destruct Hp as [x [<- Hx]]. apply IH; auto.
+  - change (pv_good 0 (write_s (SRec deny fs) (VRec l)) = true). rewrite write_rec.
+    change (wt (SRec deny fs) (VRec l) = true) in W. rewrite wt_rec in W.
+    change (schema_rt_ok (SRec deny fs) = true) in OK. rewrite ok_rec in OK. apply andb_true_iff in OK. destruct OK as [ON OF].
+    cbn [pv_good]. apply andb_true_iff. split.
+    + apply nodup_keys_spec. apply write_fields_nodup. apply nodup_keys_spec. exact ON.
+    + clear ON. revert l W. induction fs as [|f fs IHfs]; intros l W; [reflexivity|].
+      destruct l as [|v l]; [destruct f as [[? ?] ?]; reflexivity|].
+      cbn [wt_fields] in W. apply andb_true_iff in W. destruct W as [Wf W].
+      cbn [forallb] in OF. apply andb_true_iff in OF. destruct OF as [Of OF]. inversion IH as [|? ? Hf IH']; subst.
+      unfold field_ok in Of. apply andb_true_iff in Of. destruct Of as [_ Os].
+      destruct f as [[k [[opt skip] dflt]] s']. unfold wt_field, f_opt, f_schema in *. cbn [fst snd] in *.
+      cbn [write_fields]. unfold field_written.
+      destruct opt.
+      * destruct v as [| | | | | |[x|]]; try discriminate; [|apply IHfs; assumption].
+        cbn [forallb]. rewrite (Hf Os x Wf). cbn. apply IHfs; assumption.
+      * destruct (skip && is_empty_list v); [apply IHfs; assumption|].
+        cbn [forallb]. rewrite (Hf Os v Wf). cbn. apply IHfs; assumption.
+Qed.
+
+(** ** fontinfo.plist at tree level *)
+Local Opaque font_info_schema.
+Section InfoFile.
+Variable pf : str -> option fl.
+Variable ff : fl -> str.
+Variable fi : Z -> str.
+Hypothesis H_ff : forall x, fl_finite x = true -> pf (ff x) = Some x.
+Hypothesis H_fi : forall z, int_ok z = true -> plist_int (fi z) = Some z.
+
+Definition P_fontinfo_file (O : Type) : part node O sval :=
+  plist_part pf ff fi (write_s font_info_schema) (read_s font_info_schema) (fun v => wt font_info_schema v = true).
+
+Theorem fontinfo_file_roundtrip : forall v, wt font_info_schema v = true ->
+  obind (plist_value pf (plist_tree ff fi (write_s font_info_schema v))) (read_s font_info_schema) = Some v.
+Proof.
+  intros v W. rewrite (tree_value pf ff fi H_ff H_fi _ (write_good _ font_info_schema_ok v W)). cbn [obind].
+  apply font_info_roundtrip. exact W.
+Qed.
+Theorem fontinfo_file_part_ok : forall O, part_ok (P_fontinfo_file O).
+Proof.
+  intros O. apply plist_part_ok; try assumption. intros v W. split; [apply write_good; [exact font_info_schema_ok|exact W]|].
+  apply font_info_roundtrip. exact W.
+Qed.
+End InfoFile.
